@@ -1,4 +1,5 @@
 import CohdlVerif.Model.DriverLoop
 import CohdlVerif.Model.Fifo
--- model driver of property C14:  `fifo N op*` | `stack MODE N op*`
-def main : IO Unit := CohdlVerif.driverLoop CohdlVerif.C14.handle
+import CohdlVerif.Model.C14ExtFifo
+-- model driver of property C14:  `fifo N op*` | `stack MODE N op*` | `dfifo N TXD RXD tok*` | `dstep ...` (delayed Fifo)
+def main : IO Unit := CohdlVerif.driverLoop CohdlVerif.C14.handleExt
